@@ -20,7 +20,9 @@ import (
 	"fmt"
 	"io"
 	"math"
+	"os"
 	"reflect"
+	"runtime"
 	"sort"
 	"strconv"
 	"strings"
@@ -389,8 +391,9 @@ type C11TxCase struct {
 	Entry     string    `json:"e"`            // transact | transactctx | onconn | newconn (ext: cached | cachedctx)
 	Cx        string    `json:"cx,omitempty"` // context given to a ...Ctx entry point: "" live | pre (cancelled before the call) | dead (deadline already expired) | b<j> (cancelled by the body right before statement j; j = len(s): after the last one)
 	Stmts     []C11Stmt `json:"s,omitempty"`  // statements run by the body, in order
-	Out       string    `json:"o"`            // outcome of the body after its statements: nil | err | panic
-	PanicV    string    `json:"pv,omitempty"` // err | str | rt (runtime error) | int
+	Out       string    `json:"o"`            // outcome of the body after its statements: nil | err | panic | goexit (runtime.Goexit: the goroutine of the caller ends; every case runs Transact on a goroutine of its own)
+	PanicV    string    `json:"pv,omitempty"` // err | str | rt (runtime error) | int | nil (panic(nil))
+	PN        bool      `json:"pn,omitempty"` // pv = nil only: run under GODEBUG=panicnil=1, the semantics the repository is built with (go.mod says go 1.19): recover() returns nil for panic(nil); otherwise the check binary's go 1.23 semantics (*runtime.PanicNilError)
 	BE        string    `json:"be,omitempty"` // the error value the body returns when o = err: "" errors.New | txdone | norows | conndone | badconn | canceled | deadline | eof | custom (own error type)
 	BW        bool      `json:"bw,omitempty"` // ... wrapped with fmt.Errorf("%w")
 	FBegin    string    `json:"fb,omitempty"` // "" | connect | begin | badconn (every Begin attempt hits a dead connection: driver.ErrBadConn) | badconn1 (only the first attempt does; database/sql retries on another connection)
@@ -485,9 +488,10 @@ func VerifC11GenTx(entries []string) func(rt *rapid.T) C11TxCase {
 			}
 			c.Stmts = append(c.Stmts, s)
 		}
-		c.Out = rapid.SampledFrom([]string{"nil", "nil", "err", "panic"}).Draw(rt, "out")
+		c.Out = rapid.SampledFrom([]string{"nil", "nil", "nil", "err", "err", "panic", "panic", "goexit"}).Draw(rt, "out")
 		if c.Out == "panic" {
-			c.PanicV = rapid.SampledFrom([]string{"err", "str", "rt", "int"}).Draw(rt, "panicv")
+			c.PanicV = rapid.SampledFrom([]string{"err", "str", "rt", "int", "nil", "nil"}).Draw(rt, "panicv")
+			c.PN = c.PanicV == "nil" && rapid.Bool().Draw(rt, "panicnil-go119")
 		}
 		if c.Out == "err" && rapid.IntRange(0, 3).Draw(rt, "plainbodyerr") != 0 {
 			c.BE = rapid.SampledFrom(C11BodyErrKinds).Draw(rt, "bodyerrkind")
@@ -689,16 +693,6 @@ func VerifC11InterpTx(c C11TxCase, run C11Runner) (v kit.Verdict) {
 	fn := func(ctx context.Context, s Session) error {
 		runs++
 		captured = s
-		defer func() {
-			// a panic raised by the code under test inside one of the body's
-			// statements (not by the harness body itself) is a panicking body too
-			if p := recover(); p != nil {
-				if outcome != "panic" {
-					outcome, panicAtStmt = "panic", true
-				}
-				panic(p)
-			}
-		}()
 		for i, st := range c.Stmts {
 			if i == cancelAt {
 				cancel()
@@ -834,9 +828,14 @@ func VerifC11InterpTx(c C11TxCase, run C11Runner) (v kit.Verdict) {
 				m["x"] = 1 // runtime error
 			case "int":
 				panic(42)
+			case "nil":
+				panic(nil)
 			default:
 				panic(bodyErr)
 			}
+		case "goexit":
+			outcome = "goexit"
+			runtime.Goexit()
 		}
 		outcome = "nil"
 		return nil
@@ -846,14 +845,30 @@ func VerifC11InterpTx(c C11TxCase, run C11Runner) (v kit.Verdict) {
 	var res error
 	var panicked bool
 	var panicVal any
-	func() {
+	returnedToCaller := false // false after the run: the caller's goroutine was ended (runtime.Goexit)
+	if c.Out == "panic" && c.PanicV == "nil" && c.PN {
+		old := os.Getenv("GODEBUG")
+		_ = os.Setenv("GODEBUG", strings.TrimPrefix(old+",panicnil=1", ","))
+		defer os.Setenv("GODEBUG", old)
+	}
+	done := make(chan struct{})
+	go func() {
+		defer close(done)
 		defer func() {
 			if p := recover(); p != nil {
 				panicked, panicVal = true, p
+				returnedToCaller = true
 			}
 		}()
 		res = run(c.Entry, userCtx, db, fn, func(hc C11HistConn) { self = hc })
+		returnedToCaller = true
 	}()
+	<-done
+	if outcome == "" && runs == 1 {
+		// the body was torn down inside one of its statements: a panic raised by
+		// the code under test there (not by the harness body) is a panicking body too
+		outcome, panicAtStmt = "panic", true
+	}
 	f.takeArmed()
 	events := f.snapshot()
 	if c.FBegin == "badconn1" && len(events) >= 2 && events[0] == "begin" && events[1] == "begin" {
@@ -887,6 +902,13 @@ func VerifC11InterpTx(c C11TxCase, run C11Runner) (v kit.Verdict) {
 	}
 	if c.Out == "panic" && c.PanicV == "int" {
 		classes = append(classes, "panic-value:int")
+	}
+	if outcome == "panic" && c.Out == "panic" && c.PanicV == "nil" && !panicAtStmt {
+		if c.PN {
+			classes = append(classes, "panic-value:nil/go1.19-semantics(panicnil=1)")
+		} else {
+			classes = append(classes, "panic-value:nil/PanicNilError")
+		}
 	}
 	commits, rollbacks, begins := 0, 0, 0
 	for _, e := range events {
@@ -1096,7 +1118,24 @@ func VerifC11InterpTx(c C11TxCase, run C11Runner) (v kit.Verdict) {
 		case !historyOK("rollback"):
 			return v.Failf("body returned an error: driver history differs from begin, statements %v, rollback (%s)", executed, describe())
 		}
+	case "goexit":
+		switch {
+		case commits == 1 && rollbacks == 0 && historyOK("commit"):
+			return v.Failf("the body ended its goroutine with runtime.Goexit (it did not return nil) but the transaction was COMMITTED (%s)", describe())
+		case returnedToCaller:
+			return v.Failf("the body called runtime.Goexit but Transact returned to its caller (%s)", describe())
+		case commits != 0:
+			return v.Failf("the body called runtime.Goexit but the driver saw %d Commit(s) (%s)", commits, describe())
+		case rollbacks != 1:
+			return v.Failf("the body called runtime.Goexit: want exactly one Rollback, driver saw %d (%s)", rollbacks, describe())
+		case !historyOK("rollback"):
+			return v.Failf("the body called runtime.Goexit: driver history differs from begin, statements %v, rollback (%s)", executed, describe())
+		}
+		return v
 	case "panic":
+		if c.Out == "panic" && c.PanicV == "nil" && c.PN && !panicAtStmt && !panicked && commits == 1 && rollbacks == 0 && historyOK("commit") {
+			return v.Failf("the body called panic(nil) under the repository's own language version (go 1.19: recover() returns nil) and the transaction was COMMITTED, result %v (%s)", res, describe())
+		}
 		if !panicked && res == nil && commits == 0 && rollbacks == 0 && historyOK("") {
 			v.Known = c11KnownPanicSwallowed
 			return v.Failf("body panicked: Transact returned nil, the transaction was neither rolled back nor committed and the caller learnt nothing (%s)", describe())
@@ -1161,8 +1200,13 @@ func c11EnumerateTx(maxStmts, maxCtxStmts int) func(yield func(C11TxCase) bool) 
 			stmtOptsCtx = append(stmtOptsCtx, C11Stmt{K: k, R: r})
 		}
 	}
-	type out struct{ o, pv string }
-	outs := []out{{"nil", ""}, {"err", ""}, {"panic", "err"}, {"panic", "str"}, {"panic", "rt"}}
+	type out struct {
+		o, pv string
+		pn    bool
+	}
+	outs := []out{{o: "nil"}, {o: "err"}, {o: "panic", pv: "err"}, {o: "panic", pv: "str"}, {o: "panic", pv: "rt"}}
+	// bodies that do not return, for <= 1 statement
+	outsNoReturn := []out{{o: "goexit"}, {o: "panic", pv: "nil"}, {o: "panic", pv: "nil", pn: true}}
 	return func(yield func(C11TxCase) bool) {
 		emit := func(stmts []C11Stmt, entries []string, cx string) bool {
 			logs := []string{""}
@@ -1175,7 +1219,11 @@ func c11EnumerateTx(maxStmts, maxCtxStmts int) func(yield func(C11TxCase) bool) 
 			}
 			for _, lg := range logs {
 				for _, e := range entries {
-					for _, o := range outs {
+					os := outs
+					if len(stmts) <= 1 {
+						os = append(append([]out(nil), outs...), outsNoReturn...)
+					}
+					for _, o := range os {
 						berrs := []berr{{"", false}}
 						if o.o == "err" && cx == "" && len(stmts) <= 1 && (len(stmts) == 0 || (stmts[0].A == "" && len(stmts[0].K) >= 4 && stmts[0].K != "outer" && stmts[0].K != "nnil" && stmts[0].K != "nerr")) {
 							berrs = nil
@@ -1191,7 +1239,7 @@ func c11EnumerateTx(maxStmts, maxCtxStmts int) func(yield func(C11TxCase) bool) 
 								for _, fc := range []bool{false, true} {
 									for _, fr := range []bool{false, true} {
 										c := C11TxCase{Entry: e, Cx: cx, Stmts: append([]C11Stmt(nil), stmts...), Out: o.o, PanicV: o.pv,
-											FBegin: fb, FCommit: fc, FRollback: fr, Log: lg, BE: be.k, BW: be.w}
+											FBegin: fb, FCommit: fc, FRollback: fr, Log: lg, BE: be.k, BW: be.w, PN: o.pn}
 										if !yield(c) {
 											return false
 										}
@@ -1317,6 +1365,9 @@ type C11RowsCase struct {
 	Log     string     `json:"lg,omitempty"`   // package logging switches: "" both on | off (sqlx.DisableLog) | stmtoff (sqlx.DisableStmtLog)
 	QF      bool       `json:"qf,omitempty"`   // the driver fails the query
 	It      int        `json:"it,omitempty"`   // k+1: the query succeeds but the driver's row iteration fails after k rows (k < n, or 0 when n = 0); 0 = no such fault
+	Named   int        `json:"nt,omitempty"`   // k+1: the destination is the k-th COMPILED type of c11NamedFamily (f repeats its description); 0: built with reflect.StructOf
+	Pre     []int      `json:"pre,omitempty"`  // members of c11NamedFamily queried first in this order (result ignored): all print as "sqlx.row"
+	Twin    bool       `json:"twin,omitempty"` // a StructOf type with the same field names and types but the db tags rotated by one is queried first (result ignored)
 	W       bool       `json:"w,omitempty"`    // warm-up: the same call into the same destination type with the columns in reverse order runs first (result ignored)
 	Single  bool       `json:"one,omitempty"`  // QueryRow* (else QueryRows*)
 	Partial bool       `json:"part,omitempty"` // *Partial form (non-strict)
@@ -1589,6 +1640,95 @@ func c11ValidWrap(t string, base any, nonzero bool) any {
 	return base
 }
 
+// c11Named is a COMPILED destination type together with its description.
+// Every member of the family is a function-local `type row struct` with the
+// same field names and types (A int64, B int64, C string): the types are
+// distinct, but reflect.Type.String() is "sqlx.row" for all of them, and they
+// differ only in their db tags / tag order / tagged-vs-untagged.
+type c11Named struct {
+	typ    reflect.Type
+	fields []C11Field
+}
+
+func c11Row(t reflect.Type, ga, gb, gc string) c11Named {
+	return c11Named{t, []C11Field{{T: "i64", G: ga}, {T: "i64", G: gb}, {T: "str", G: gc}}}
+}
+
+func c11NamedRow0() c11Named {
+	type row struct {
+		A int64  `db:"a"`
+		B int64  `db:"b"`
+		C string `db:"c"`
+	}
+	return c11Row(reflect.TypeOf(row{}), "a", "b", "c")
+}
+
+func c11NamedRow1() c11Named { // tags of A and B exchanged
+	type row struct {
+		A int64  `db:"b"`
+		B int64  `db:"a"`
+		C string `db:"c"`
+	}
+	return c11Row(reflect.TypeOf(row{}), "b", "a", "c")
+}
+
+func c11NamedRow2() c11Named { // other names
+	type row struct {
+		A int64  `db:"x"`
+		B int64  `db:"y"`
+		C string `db:"z"`
+	}
+	return c11Row(reflect.TypeOf(row{}), "x", "y", "z")
+}
+
+func c11NamedRow3() c11Named { // untagged: by position
+	type row struct {
+		A int64
+		B int64
+		C string
+	}
+	return c11Row(reflect.TypeOf(row{}), "", "", "")
+}
+
+func c11NamedRow4() c11Named { // one tag in common with row0, at another field
+	type row struct {
+		A int64  `db:"d"`
+		B int64  `db:"a"`
+		C string `db:"e"`
+	}
+	return c11Row(reflect.TypeOf(row{}), "d", "a", "e")
+}
+
+func c11NamedRow5() c11Named { // mixed case of row0's names
+	type row struct {
+		A int64  `db:"A"`
+		B int64  `db:"B"`
+		C string `db:"C"`
+	}
+	return c11Row(reflect.TypeOf(row{}), "A", "B", "C")
+}
+
+func c11NamedRow6() c11Named { // tag options
+	type row struct {
+		A int64  `db:"b,omitempty"`
+		B int64  `db:"c,opt"`
+		C string `db:"a"`
+	}
+	return c11Row(reflect.TypeOf(row{}), "b", "c", "a")
+}
+
+func c11NamedRow7() c11Named { // same tags as row0 (a distinct type all the same)
+	type row struct {
+		A int64  `db:"a"`
+		B int64  `db:"b"`
+		C string `db:"c"`
+	}
+	return c11Row(reflect.TypeOf(row{}), "a", "b", "c")
+}
+
+var c11NamedFamily = []c11Named{c11NamedRow0(), c11NamedRow1(), c11NamedRow2(), c11NamedRow3(),
+	c11NamedRow4(), c11NamedRow5(), c11NamedRow6(), c11NamedRow7()}
+
 // VerifC11GenRows draws a rows case for one of the given session kinds.
 func VerifC11GenRows(sessions []string) func(rt *rapid.T) C11RowsCase {
 	leafTypes := []string{"i64", "i64", "int", "str", "str", "f64", "bool", "byt", "pi64", "pstr", "nstr", "ni64"}
@@ -1620,7 +1760,7 @@ func VerifC11GenRows(sessions []string) func(rt *rapid.T) C11RowsCase {
 			c.It = k + 1
 		}
 		c.Shape = rapid.SampledFrom([]string{"tagged", "tagged", "tagged", "tagged", "tagged", "tagged",
-			"untagged", "untagged", "emb-untagged", "emb-tagged", "mixed", "prim"}).Draw(rt, "shape")
+			"untagged", "untagged", "emb-untagged", "emb-tagged", "mixed", "prim", "named", "named"}).Draw(rt, "shape")
 
 		if c.Shape == "prim" {
 			c.Prim = rapid.SampledFrom([]string{"i64", "str", "f64", "bool"}).Draw(rt, "prim")
@@ -1632,8 +1772,27 @@ func VerifC11GenRows(sessions []string) func(rt *rapid.T) C11RowsCase {
 		if rapid.IntRange(0, 59).Draw(rt, "manyfields") == 17 {
 			n = rapid.SampledFrom([]int{17, 33, 64}).Draw(rt, "nleaves-big")
 		}
+		if c.Shape == "named" {
+			k := rapid.IntRange(0, len(c11NamedFamily)-1).Draw(rt, "named")
+			c.Named = k + 1
+			n = 3
+			npre := rapid.IntRange(0, 3).Draw(rt, "npre")
+			for j := 0; j < npre; j++ {
+				c.Pre = append(c.Pre, rapid.IntRange(0, len(c11NamedFamily)-1).Draw(rt, "pre"))
+			}
+			c.Shape = "tagged"
+			if c11NamedFamily[k].fields[0].G == "" {
+				c.Shape = "untagged"
+			}
+		} else if rapid.IntRange(0, 5).Draw(rt, "twin") == 2 {
+			c.Twin = true
+		}
 		leaves := make([]C11Field, n)
 		for i := range leaves {
+			if c.Named > 0 {
+				leaves[i] = c11NamedFamily[c.Named-1].fields[i]
+				continue
+			}
 			leaves[i].T = rapid.SampledFrom(leafTypes).Draw(rt, "leaftype")
 			switch c.Shape {
 			case "tagged", "emb-tagged":
@@ -2293,6 +2452,61 @@ func VerifC11InterpRows(c C11RowsCase, q C11Querier) (v kit.Verdict) {
 
 	// ---------------- run
 	st := c11BuildType(c.Fields, 0)
+	if c.Named > 0 {
+		if c.Named > len(c11NamedFamily) || !reflect.DeepEqual(c11NamedFamily[c.Named-1].fields, c.Fields) {
+			return v.Failf("c11 harness: case names compiled type %d but describes other fields", c.Named)
+		}
+		st = c11NamedFamily[c.Named-1].typ
+		classes["compiled-named-type"] = true
+	}
+	// earlier queries of the same process into OTHER types that print alike / look
+	// alike must not influence this one (keeps the replay of a case self-contained)
+	preQuery := func(t reflect.Type, cols []string, row []driver.Value) {
+		wf := newC11Fake()
+		wf.cols, wf.rows = cols, [][]driver.Value{row}
+		wdb := sql.OpenDB(c11Connector{wf})
+		var d reflect.Value
+		switch {
+		case c.Single:
+			d = reflect.New(t)
+		case c.ElemPtr:
+			d = reflect.New(reflect.SliceOf(reflect.PointerTo(t)))
+		default:
+			d = reflect.New(reflect.SliceOf(t))
+		}
+		func() {
+			defer func() { _ = recover() }()
+			pc := c
+			pc.QF, pc.It, pc.Cd = false, 0, false
+			_ = q(pc, wdb, d.Interface())
+		}()
+		wdb.Close()
+	}
+	for _, k := range c.Pre {
+		if k < 0 || k >= len(c11NamedFamily) {
+			continue
+		}
+		classes["preceded-by-other-type-of-same-name"] = true
+		m := c11NamedFamily[k]
+		cols := []string{m.fields[0].G, m.fields[1].G, m.fields[2].G}
+		if cols[0] == "" {
+			cols = []string{"p", "q", "r"}
+		}
+		preQuery(m.typ, cols, []driver.Value{int64(7), int64(8), "nine"})
+	}
+	if c.Twin && c.Named == 0 && len(leaves) >= 2 && nTagged == len(leaves) && !hasEmb {
+		classes["preceded-by-twin-type-with-rotated-tags"] = true
+		twin := make([]C11Field, len(c.Fields))
+		var cols []string
+		row := make([]driver.Value, len(c.Fields))
+		for i := range c.Fields {
+			twin[i] = c.Fields[i]
+			twin[i].G = c.Fields[(i+1)%len(c.Fields)].G
+			cols = append(cols, c.Fields[i].G)
+			row[i] = nil
+		}
+		preQuery(c11BuildType(twin, 0), cols, row)
+	}
 	var dst reflect.Value
 	switch {
 	case c.Single:
